@@ -388,6 +388,15 @@ theorem code_lengths_after_limiting_are_a_valid_code (k : CodeKind) (n : List In
   exact complete_histogram_is_valid_upto k lens lv max hmax h15 hl hnn' hc (hcomplete hfull)
 
 open Model.HuffLimit in
+/-- NO COUNT LEAVES ITS RANGE WHILE THE LOOP RUNS: between the rounds of `enforce_max_code_size` every
+    entry of the histogram (deep-first list `l` of the lengths `max … 1` after the folding step,
+    `M = 2^max`) lies between 0 and the number of codes — so the `i32` arithmetic of the source neither
+    goes negative nor wraps, and the model's unbounded integers say what the code computes. -/
+theorem length_limiting_counts_stay_in_range (M : Int) (l : List Int) (h : Inv M l) (k : Nat) (hk : M + k ≤ W l) :
+    ∀ x ∈ iter k l, 0 ≤ x ∧ x ≤ l.sum :=
+  rounds_stay_in_range M l h k hk
+
+open Model.HuffLimit in
 /-- … and a histogram that is already within the limit and not over-full is not touched. -/
 theorem length_limiting_leaves_a_fitting_code_alone (max : Nat) (A : List Int) (hA : A.length = max) (h1 : 1 ≤ max)
     (hnA : ∀ x ∈ A, 0 ≤ x) (hfit : A.sum ≤ 2 ^ max) (hk : kraft A < 2 ^ max) :
